@@ -37,7 +37,8 @@ def run_one(mu, props_filter, tests):
         for prop in mu["expect"]:
             if props_filter and prop not in props_filter:
                 continue
-            r = subprocess.run([sys.executable, os.path.join(HERE, "runner.py"), prop, "quick", "--repo", d], capture_output=True, text=True)
+            r = subprocess.run([sys.executable, os.path.join(HERE, "runner.py"), prop, "quick", "--repo", d], capture_output=True, text=True,
+                               env=dict(os.environ, VERIF_STRICT="1"))
             lines = [l for l in r.stdout.splitlines() if l.startswith(("VIOLATION", "UNDECIDED", "OK", "FAILED-OBLIGATION"))]
             res[prop] = {"exit": r.returncode, "lines": lines[:4]}
         return mu["id"], res
